@@ -1,63 +1,58 @@
-"""Translator plugin (C09): regenerates coq/Gen/CrossTalk.v with the wire cross-talk factors of
-physics/src/deconvolution/wires.rs (`NEIGHBOR_FACTORS`), as the EXACT rational values of the binary64 constants the
-compiler produces from the decimal literals (Python's float() is correctly rounded, as rustc's literal parsing is).
+"""Translator plugin (C09): regenerates coq/Gen/CrossTalk.v with the wire cross-talk factors, taken FROM THE
+IMPLEMENTATION on every run: the matrix `a_matrix(n)` of physics/src/deconvolution/wires.rs (the one handed to faer's
+`cholesky_in_place(..).unwrap()`), read through the hook `alpha_g_physics::verif::crosstalk_matrix(n)` (phys harness,
+`vphys obs`, case line `amat <n>`).
 
-`a_matrix(n)` builds the n x n matrix  A[i][j] = NEIGHBOR_FACTORS.get(|i - j|).copied().unwrap_or(0.0)  that is handed
-to faer's Cholesky factorisation (`cholesky_in_place(..).unwrap()`).  coq/Signal/CrossTalk.v proves, for the
-regenerated factors and EVERY n, that this matrix is positive definite over the reals (strict diagonal dominance).
-What is read from the source: the constant (exactly five finite literals, else GenError) and that `a_matrix` indexes
-it by the absolute index difference with 0.0 beyond the table (a few equivalent spellings are accepted, else GenError).
-"""
+Checked here on every run, for the block lengths N_CHECK (1..=16, 64, 255, 256): the matrix is n x n, every entry is
+finite, A[i][j] depends on |i - j| only (the SAME function for every n), and is exactly 0.0 for |i - j| >= 5: i.e. it
+is the band Toeplitz matrix the model coq/Signal/CrossTalk.v is about; else GenError.  The five factors are written as
+the EXACT rational values of the binary64 numbers.  How the source spells the matrix (a constant table, a `match` on
+the distance, helper functions) is irrelevant.  Block lengths not in N_CHECK are assumed to follow the same rule
+(the harness runs the real deconvolution on every block length 1..=256: rel17block)."""
 import os
-import re
+import struct
 
 import gen
+import vlib
 
-SRC = "physics/src/deconvolution/wires.rs"
+N_CHECK = list(range(1, 17)) + [64, 255, 256]
+BAND = 5
 
 
 def generate():
-    src = gen.strip_comments(open(os.path.join(gen.REPO, SRC)).read())
-    m = re.search(r"const\s+NEIGHBOR_FACTORS\s*:\s*\[\s*f64\s*;\s*(\w+)\s*\]\s*=\s*\[([^\]]*)\]\s*;", src)
-    if not m:
-        raise gen.GenError("%s: const NEIGHBOR_FACTORS: [f64; N] = [..]; not found" % SRC)
-    items = [x.strip() for x in m.group(2).split(",") if x.strip()]
-    vals = []
-    for it in items:
-        lit = re.fullmatch(r"(-?\d[\d_]*(?:\.[\d_]*)?(?:[eE][-+]?\d+)?)(?:_?f64)?", it)
-        if not lit:
-            raise gen.GenError("%s: NEIGHBOR_FACTORS entry %r is not a decimal literal" % (SRC, it))
-        vals.append(float(lit.group(1).replace("_", "")))
-    if len(vals) != 5 or m.group(1) not in ("5",):
-        raise gen.GenError("%s: NEIGHBOR_FACTORS has %d entries (the model has the diagonal and four neighbours)"
-                           % (SRC, len(vals)))
-    i = src.find("fn a_matrix")
-    if i < 0:
-        raise gen.GenError("%s: fn a_matrix not found" % SRC)
-    depth, j = 0, src.find("{", i)
-    k = j
-    while True:
-        if src[k] == "{":
-            depth += 1
-        elif src[k] == "}":
-            depth -= 1
-            if depth == 0:
-                break
-        k += 1
-    body = "".join(src[j:k + 1].split())
-    diffs = ["ifi>j{i-j}else{j-i}", "ifj>i{j-i}else{i-j}", "ifi>=j{i-j}else{j-i}", "ifj>=i{j-i}else{i-j}",
-             "i.abs_diff(j)", "j.abs_diff(i)", "ifi<j{j-i}else{i-j}", "ifj<i{i-j}else{j-i}",
-             "ifi<=j{j-i}else{i-j}", "ifj<=i{i-j}else{j-i}", "i.max(j)-i.min(j)", "j.max(i)-j.min(i)"]
-    uses = re.search(r"NEIGHBOR_FACTORS\.get\((\w+|[^()]*\([^()]*\))\)(\.copied\(\)|\.cloned\(\))\.unwrap_or\(0(\.0?)?(_?f64)?\)", body)
-    direct = [d for d in diffs if d in body]
-    if not uses or not direct or "with_dims(n,n," not in body:
-        raise gen.GenError("%s: a_matrix has a shape the translator does not know: %s" % (SRC, body[:200]))
+    exe, out = vlib.build_harness("phys")
+    if exe is None:
+        raise gen.GenError("phys harness does not build against /repo: " + out[-600:])
+    rc, out = vlib.sh([exe, "obs"], stdin="".join("amat %d\n" % n for n in N_CHECK).encode(), timeout=900)
+    lines = out.split("\n")
+    if rc != 0 or len(lines) < len(N_CHECK):
+        raise gen.GenError("amat failed: %r" % out[:300])
+    factor = {}
+    for n, line in zip(N_CHECK, lines):
+        t = line.split(" ")
+        if t[0] != str(n) or len(t) != 1 + n * n:
+            raise gen.GenError("amat %d: unexpected shape %r" % (n, line[:80]))
+        vals = [struct.unpack("<d", struct.pack("<Q", int(h, 16)))[0] for h in t[1:]]
+        for i in range(n):
+            for j in range(n):
+                v, d = vals[i * n + j], abs(i - j)
+                if v != v or v in (float("inf"), float("-inf")):
+                    raise gen.GenError("a_matrix(%d)[%d][%d] is not finite" % (n, i, j))
+                if d >= BAND:
+                    if v != 0.0:
+                        raise gen.GenError("a_matrix(%d)[%d][%d] = %r: not a band matrix of half-width %d" % (n, i, j, v, BAND - 1))
+                elif factor.setdefault(d, v) != v:
+                    raise gen.GenError("a_matrix(%d)[%d][%d] = %r but distance %d had %r: not a Toeplitz matrix"
+                                       % (n, i, j, v, d, factor[d]))
+    if sorted(factor) != list(range(BAND)):
+        raise gen.GenError("a_matrix: distances seen %r" % sorted(factor))
     out = [gen.HEADER.replace("tools/gen.py", "tools/genx_crosstalk.py").replace("From AG Require Import Base.Prelude.\n", "")]
     out.append("From Coq Require Import Reals.\nLocal Open Scope R_scope.\n")
-    out.append("(* NEIGHBOR_FACTORS of %s = %s : the exact values of the binary64 constants *)\n" % (SRC, ", ".join(items)))
-    for n, v in enumerate(vals):
-        if v != v or v in (float("inf"), float("-inf")):
-            raise gen.GenError("%s: non-finite factor" % SRC)
-        p, q = v.as_integer_ratio()
-        out.append("Definition neighbor_factor_%d : R := IZR (%d) / IZR (%d).\n" % (n, p, q))
+    out.append("(* a_matrix(n)[i][j] of physics/src/deconvolution/wires.rs as the implementation builds it (hook\n"
+               "   verif::crosstalk_matrix), checked for n = 1..16, 64, 255, 256 to be the band Toeplitz matrix\n"
+               "   A[i][j] = factor |i - j| (0 beyond distance 4) with factors %s:\n"
+               "   the exact values of the binary64 numbers *)\n" % ", ".join(repr(factor[d]) for d in range(BAND)))
+    for d in range(BAND):
+        p, q = factor[d].as_integer_ratio()
+        out.append("Definition neighbor_factor_%d : R := IZR (%d) / IZR (%d).\n" % (d, p, q))
     gen.write_if_changed(os.path.join(gen.GEN, "CrossTalk.v"), "".join(out))
